@@ -85,7 +85,7 @@ func VerifC07C09Deployment() {
 
 	n := verifrt.IntRange("nObjectSets", 0, verifrt.Bound("maxObjectSets", 2))
 	listed := make([]*vListed, n)
-	var list []adapters.ObjectSetAccessor
+	list := []adapters.ObjectSetAccessor{} // what the real lister returns for "none": empty, not nil
 	for k := 0; k < n; k++ {
 		p := "os" + strconv.Itoa(k)
 		l := &vListed{}
